@@ -9,7 +9,7 @@ trap 'git -C /repo checkout -- . ; git -C /repo clean -fdq' EXIT
 cd /verif
 for p in "$@"; do
   out=/tmp/seedrun_$p.txt
-  timeout 3000 ./bin/vcheck -p $p > $out 2>&1
+  timeout 3000 ${VCHECK:-./bin/vcheck} -p $p > $out 2>&1
   echo "== $p exit=$?"
   grep -E "VIOLATION|KNOWN-FINDING|BROKEN|INCONCLUSIVE|violated:" $out | cut -c1-300 | head -12
   tail -1 $out
